@@ -19,6 +19,7 @@ CONSTANTS
   ExtraData = {FALSE}
   Retargets = {FALSE}
   AlignOpts = {0}
+  Aliases = {FALSE}
   InsFns = {"none"}
   Emit = TRUE
 INVARIANT Inv
